@@ -33,6 +33,7 @@ func vhb(h version.Heartbeat) vHB { return vHB{G: int(h.Generation), V: int(h.Ve
 type vRestartOut struct {
 	Round       int    `json:"round"`
 	Ticks       int    `json:"ticks"`
+	Jump        uint32 `json:"jump"`
 	Persisted   vHB    `json:"persisted"`    // host heartbeat in the surviving storage image
 	PrevRun     vHB    `json:"prev_run"`     // host heartbeat the previous run reached in memory
 	PeerBefore  vHB    `json:"peer_before"`  // peer's record of the node before the restart
@@ -55,14 +56,19 @@ func TestVerifClusterRestart(t *testing.T) {
 	}
 	defer of.Close()
 	enc := json.NewEncoder(of)
-	for round, ticks := range []int{1, 3} {
-		res := vRestartRound(round, ticks)
+	// jump: versions the previous run had already consumed before the observed ticks
+	// (long-running process: version beyond 2^16 / 2^31 when it crashes)
+	for round, sc := range []struct {
+		ticks int
+		jump  uint32
+	}{{1, 0}, {3, 0}, {3, 70000}, {2, 1 << 31}} {
+		res := vRestartRound(round, sc.ticks, sc.jump)
 		_ = enc.Encode(res)
 	}
 }
 
-func vRestartRound(round, ticks int) (res vRestartOut) {
-	res.Round, res.Ticks = round, ticks
+func vRestartRound(round, ticks int, jump uint32) (res vRestartOut) {
+	res.Round, res.Ticks, res.Jump = round, ticks, jump
 	ctx, cancel := context.WithTimeout(context.Background(), 60*time.Second)
 	defer cancel()
 	fail := func(err error) vRestartOut { res.Err = err.Error(); return res }
@@ -113,6 +119,11 @@ func vRestartRound(round, ticks int) (res vRestartOut) {
 		return fail(err)
 	}
 	res.Persisted = vhb(persisted.Nodes[hostKey].Heartbeat)
+	if jump > 0 {
+		host := c2.Host()
+		host.Heartbeat.Version += jump
+		c2.SetNode(ctx, host)
+	}
 	for i := 0; i < ticks; i++ {
 		if err := c2.gossip.GossipOnce(ctx); err != nil {
 			_ = c2.Close()
